@@ -406,6 +406,8 @@ func (s *Server) getOrCreateConn(udpConn *coapNet.UDPConn, raddr *net.UDPAddr, l
 	cfg.MessagePool = s.cfg.MessagePool
 	cfg.ProcessReceivedMessage = s.cfg.ProcessReceivedMessage
 	cfg.ReceivedMessageQueueSize = s.cfg.ReceivedMessageQueueSize
+	cfg.LimitClientParallelRequests = s.cfg.LimitClientParallelRequests
+	cfg.LimitClientEndpointParallelRequests = s.cfg.LimitClientEndpointParallelRequests
 
 	requestMonitor := s.cfg.RequestMonitor
 	cc = client.NewConnWithOpts(
